@@ -191,6 +191,10 @@ func membershipBodyX(prog *load.Program, info *types.Info, ftype *ast.FuncType, 
 			if cf == nil || cf.Pkg() == nil {
 				return false
 			}
+			if cf.FullName() == "(*go/types.Scope).Lookup" {
+				// a lookup in a go/types scope under the parameter: scopes are finite
+				return len(x.Args) == 1 && isParam(x.Args[0])
+			}
 			if cf.Pkg().Path() == "slices" {
 				switch cf.Name() {
 				case "Contains", "Index":
@@ -533,6 +537,10 @@ func numberingLoop(prog *load.Program, info *types.Info, fd *ast.FuncDecl, fs *a
 			return false
 		}
 		cf, _ := typeutil.Callee(info, call).(*types.Func)
+		// a lookup of the candidate in a go/types scope (the universe: finitely many predeclared names)
+		if cf != nil && cf.FullName() == "(*go/types.Scope).Lookup" && len(call.Args) == 1 && mentionsItoa(call.Args[0]) {
+			return true
+		}
 		if cf == nil {
 			// a function literal bound once to a local (taken := func(name string) bool { ... })
 			if id, ok := ast.Unparen(call.Fun).(*ast.Ident); ok {
@@ -580,6 +588,14 @@ func numberingLoop(prog *load.Program, info *types.Info, fd *ast.FuncDecl, fs *a
 				nSearch++
 				if id, ok := ast.Unparen(x.Lhs[len(x.Lhs)-1]).(*ast.Ident); ok && id.Name != "_" {
 					answers[info.ObjectOf(id)] = true
+				}
+			}
+			// found := search(candidate) != nil (>= 0, > -1): the variable holds the answer
+			if len(x.Rhs) == 1 && len(x.Lhs) == 1 {
+				if be, ok := ast.Unparen(x.Rhs[0]).(*ast.BinaryExpr); ok && isSearch(be.X) && (be.Op == token.NEQ || be.Op == token.GEQ || be.Op == token.GTR) {
+					if id, ok := ast.Unparen(x.Lhs[0]).(*ast.Ident); ok && id.Name != "_" {
+						answers[info.ObjectOf(id)] = true
+					}
 				}
 			}
 		case *ast.CallExpr:
